@@ -69,6 +69,30 @@ class RecTerm:
         # f"{term}" on a str-based term is its text (object.__format__ would realise the symbolic text)
         return self.text
 
+    def __eq__(self, other):
+        # equality of str-based terms: same kind and same text (a real URIRef constant such as XSD.string counts as an IRI)
+        if other is self:
+            return True
+        if isinstance(other, RecTerm):
+            if other.kind != self.kind:
+                return False
+            if self.kind == "literal":
+                return self.same(other)
+            if self.text == other.text:
+                return True
+            return False
+        if isinstance(other, str) and self.kind == "uri" and type(other).__name__ == "URIRef":
+            if self.text == str(other):
+                return True
+            return False
+        return False
+
+    def __ne__(self, other):
+        return not self.__eq__(other)
+
+    def __hash__(self):
+        return 0
+
     truthy = None   # a literal's truthiness is that of its Python value (Literal(0), Literal(False) are falsy): set by shape
 
     def __bool__(self):
